@@ -284,7 +284,8 @@ def main():
     ]
     # an elided run that stands for nothing where the absence of the list is syntax: 'var b Old' (no '='), 'return f()'
     for nm, pt, body, mt in enginegen.extra_pairs():
-        if nm.split(":")[1] in ("valuespec-dots", "case-dots", "return-dots", "composite-empty", "params-dots", "results-dots", "struct-fields-dots"):
+        if nm.split(":")[1] in ("valuespec-dots", "case-dots", "return-dots", "composite-empty", "params-dots", "results-dots", "struct-fields-dots",
+                                  "for-dots-kinds", "for-dots-labeled", "fields-embedded", "iface-embedded", "spread-pair", "spread-both", "spread-context"):
             pairs.append(("p.patch", pt, "a.go", body)); names.append("empty-run:" + nm); meta.append(("empty-run", None, None, None))
     for j, (pt, body) in enumerate(ASSOC):
         pairs.append(("p.patch", pt.encode(), "a.go", ("package p\n\n" + body).encode())); names.append("assoc#%d" % j); meta.append(("assoc", None, None, None))
